@@ -150,6 +150,12 @@ func (f *Field[T]) IsZero(a *Element[T]) frontend.Variable {
 	for i := 1; i < len(ca.Limbs); i++ {
 		resP = f.api.Mul(resP, f.api.IsZero(f.api.Sub(p.Limbs[i], ca.Limbs[i])))
 	}
+	if len(ca.Limbs) < len(p.Limbs) {
+		// an element on fewer limbs than the modulus is smaller than the modulus
+		// (its most significant limb is non-zero): it cannot be p, even when its
+		// limbs coincide with the low limbs of p.
+		resP = 0
+	}
 	return f.api.Or(res0, resP)
 }
 
